@@ -173,6 +173,7 @@ class SimScheduler:
         self.mutations = []                  # M1: (step, task key, path)
         self.watch_hits = []                 # M2: (step, task key, buffer name)
         self.reexec_diffs = []               # probe only
+        self.rng_tasks = []                  # tasks that changed numpy's global RNG state (probe)
         self.families = {}
         self.max_pool = 0
         self.choice_points = 0               # decisions with >1 option
@@ -331,9 +332,14 @@ class SimScheduler:
 
     def _run(self, p, step):
         before = None
+        rng0 = None
         if self.m1:
             before = [(path, arr, _digest(arr)) for path, arr in _walk_arrays(p.args[0][1], 7)]
+            rng0 = _rng_digest()
         result = p.fn(p.args)
+        if rng0 is not None and _rng_digest() != rng0:
+            # process-global state touched inside a task: concurrent tasks would interleave on it
+            self.rng_tasks.append(p.kstr)
         if self.reexec_rate and self.rng.random() < self.reexec_rate:
             # probe only: at-least-once execution with the same argument objects
             again = p.fn(p.args)
@@ -379,6 +385,11 @@ class SimScheduler:
                 "fired": list(self.fired), "mutations": len(self.mutations),
                 "watch_hits": list(self.watch_hits), "reexec_diffs": len(self.reexec_diffs),
                 "replay_mismatch": self.replay_mismatch}
+
+
+def _rng_digest():
+    st = np.random.get_state()
+    return (st[2], hash(st[1][:16].tobytes()))
 
 
 def _get_id():
